@@ -176,7 +176,7 @@ def run(ctx):
     ctx.sample({"origin": "Dispatch.tla behaviour", "tokens": list(seqs[len(seqs) // 2]), "text_tail": texts[f"d{3 * (len(seqs) // 2)}"].splitlines()[-8:]})
     # TRACE: seeded noisy sections: junk at every position, multiplicity up to 3, long sections
     for j in range(ctx.pick(400, 8000)):
-        n = r.choice([1, 3, 6, 12, 30])
+        n = r.choice([1, 3, 6, 12, 30]) if j % 50 else r.choice([200, 600])      # (a few long sections)
         base = [r.choice(["k1", "k1", "k2", "k3"]) for _ in range(n)]
         toks = []
         for t in base:
